@@ -88,7 +88,7 @@ fn graph_scenario(n: usize, slots: usize, untraced: bool, hist: u8, phantom: boo
             0 => drop_h(i),
             1 => {
                 let s = any_below(slots as u8) as usize;
-                clear_slot(i, s);
+                clear_slot_top(i, s);
             }
             2 => {
                 let s = any_below(slots as u8) as usize;
